@@ -93,6 +93,7 @@ type Exec struct {
 	fnStatic    map[string]Val // closure reference -> statically known function and bindings
 	sfromReg    []sfromEntry   // strings taken from byte ranges (for range-precise havoc)
 	ssubReg     []ssubEntry    // substring terms (for the substring-of-bytes lemma)
+	variant0    string         // entry value of the function-level decreases measure
 	ifaceStatic map[string]Val // fresh interface constant -> statically known boxed value
 }
 
